@@ -189,6 +189,8 @@ def fresh_session():
     except Exception:
         pass
     mx.set_recalc(False)
+    for namer in ("_backupnamer", "_modelnamer"):          # the session-wide counters behind <name>_BAK<k> and Model<k>
+        getattr(mx.core.mxsys, namer).reset()
     mx.core.mxsys.callstack.maxdepth = type(mx.core.mxsys.callstack).default_maxdepth
     ex = mx.core.mxsys.executor
     ex.rolledback.clear()
@@ -306,11 +308,18 @@ def dag_formula(k, shape=0, default=False, fail=None, uncached_read=False, reads
     elif fail == "zerodiv":
         lines.append("    hit(-1, 1 // (0 if (F == %d and FT == t) else 1))" % k)
     lines.append("    r = v%d + t + %s + g%s" % (k, "Sub.z" if reads_z else "0", " + Sub.zz" if reads_zz else ""))
-    wrap = shape in (6, 7)
+    wrap = shape in (6, 7, 8, 9)
     cshape = 0 if wrap else shape
+    site = [0]
 
     def guarded(stmt):
-        """The calling statement, optionally inside try/finally (6) or try/except <non-matching> (7)."""
+        """The calling statement, optionally inside try/finally (6) or try/except <non-matching> (7); 8, 9: the clean-up code
+        evaluates ANOTHER cells element for the first time while the exception is passing through (finally / except + bare raise)."""
+        site[0] += 1
+        if shape == 8:
+            return ["        try:", "            " + stmt, "        finally:", "            aux(%d + 10 * t + %d)" % (100 * (k + 1), site[0])]
+        if shape == 9:
+            return ["        try:", "            " + stmt, "        except Exception:", "            aux(%d + 10 * t + %d)" % (100 * (k + 1), site[0]), "            raise"]
         if shape == 6:
             return ["        try:", "            " + stmt, "        finally:", "            hit(-2, t)", "            hit(-3, t)"]
         if shape == 7:
@@ -361,6 +370,7 @@ class Dag:
                 if k > 0:
                     setattr(S, "p1_%d" % k, -1)
                     setattr(S, "p2_%d" % k, -1)
+            S.new_cells("aux", formula="lambda n: n")          # evaluated by the clean-up code of call shapes 8, 9
             self.cells = []
             self.sources = []
             for k in range(n):
